@@ -162,6 +162,32 @@ def stale_after_reconnect_traces(ctx, modes):
     return traces, specs
 
 
+def beyond_alphabet(ctx, modes):
+    """Byte sequences outside the alphabet on which the TLA+ Decode rule is defined: here the reference is CPython's own codec applied
+    by the rule's two shapes - the whole output decoded once (shell / exec_out), each payload decoded alone (streaming_shell).
+    A byte-order mark, non-characters, surrogates, overlong forms, 4-byte characters, code points beyond U+10FFFF, control bytes."""
+    seqs = [b'\xef\xbb\xbfabc', b'\xef\xbb\xbf', b'a\xef\xbb\xbfb', b'\xef\xbf\xbe!', b'\xed\xa0\x80x', b'\xc0\x80', b'\xf0\x9f\x98\x80ok', b'\xf4\x90\x80\x80',
+            b'\x80\xbf', b'\x00a\x00', b'a\r\nb\r', b'\xff\xfe\x00a', b'\xe2\x82', b'\xf0\x9f\x98']
+    n = 0
+    for si, b in enumerate(seqs):
+        cuts = [[b]] + [[b[:i], b[i:]] for i in range(1, len(b))] + ([[b[:1], b[1:2], b[2:]]] if len(b) >= 3 else [])
+        for ci, chunks in enumerate(cuts):
+            for api in ('shell', 'exec_out', 'streaming_shell'):
+                mode = modes[(si + ci + len(api)) % len(modes)]
+                spec = dict(seed=ctx.seed + si * 31 + ci, maxdata=4096, rid='plus', frag='whole', ops=[dict(api=api, decode=True, cmd='u%d' % si, chunks=[c.hex() for c in chunks])])
+                rr = scen.run(spec, mode)
+                o = rr.outcomes[1]
+                want = [c.decode('utf8', 'backslashreplace') for c in chunks] if api == 'streaming_shell' else b.decode('utf8', 'backslashreplace')
+                n += 1
+                if o.kind != 'ret' or o.value != want:
+                    ctx.violation('C01.NoDecodeError' if o.kind == 'exc' else ('C01.DecodeWholeVsEach' if api != 'streaming_shell' else 'C01.ExactConcatenation'),
+                                  dict(kind='bytes outside the model alphabet', mode=mode, api=api, chunks=[c.hex() for c in chunks], expected=repr(want)[:200],
+                                       observed=repr(o.value if o.kind == 'ret' else o.exc)[:200]))
+                    if len(ctx.violations) >= 3:
+                        return n
+    return n
+
+
 def abort_then_decode_traces(ctx, modes):
     """A decode=True command fails right after a WRITE that ends in the middle of a character (the device falls silent);
     the next decode=True command on the same object (also after close/connect) must decode only what its own stream wrote."""
@@ -260,6 +286,7 @@ def body(ctx):
     traces += t4
     specs += s4
     ctx.count(evaluations=big_decode(ctx, ['sync', 'async']))
+    ctx.count(evaluations=beyond_alphabet(ctx, ['sync', 'async']))
     if ctx.violations:
         return
     ver, r = tlc.validate_traces('TraceEnv', traces)
